@@ -161,86 +161,122 @@ theorem pub_decorators_in_order (pd : List Nat) : pubTrace pd = pd.map Ev.pub ++
   | nil => rfl
   | cons i rest _ => simp [recPub]
 
-/-- **subscriber decorators act on an incoming message in the order they were added**, each after the router's
-    context decorator (so each already sees the handler context) -/
-theorem sub_decorators_in_order (sd : List Nat) : subTrace sd = sd.map (fun i => Ev.sub i true) := by
-  unfold subTrace decorateSubscriber ctxDec
+/-- **subscriber decorators act on an incoming message in the order they were added**, each exactly once, each after
+    the router's context decorator (so each already sees the handler context) – also when the handler was given an
+    application-decorated subscriber object (whose own transform acts first, before the router's decorators) -/
+theorem sub_decorators_in_order_from (app : Option Nat) (sd : List Nat) :
+    subTraceFrom app sd = (appSub app).1 ++ sd.map (fun i => Ev.sub i true) := by
+  unfold subTraceFrom decorateSubscriber ctxDec
   rw [loopUp_recSub]
-  simp
+
+theorem sub_decorators_in_order (sd : List Nat) : subTrace sd = sd.map (fun i => Ev.sub i true) := by
+  unfold subTrace
+  rw [sub_decorators_in_order_from]
+  simp [appSub]
 
 example : pubTrace [7, 3, 9] = [.pub 7, .pub 3, .pub 9, .published] := by decide
 example : subTrace [7, 3, 9] = [.sub 7 true, .sub 3 true, .sub 9 true] := by decide
+example : subTraceFrom (some 4) [7, 3] = [.app 4, .sub 7 true, .sub 3 true] := by decide
 
 /-- what the property demands of one message in handler `name` (a specification, no loops):
-    subscriber decorators in order, `enter` of the applicable registrations in order, handler, `leave` reversed,
-    publisher decorators in order and the publisher (if the handler has one and returned a message). -/
-def specTrace (regs : List Reg) (pd sd : List Nat) (name : String) (hasPub : Bool) : List Ev :=
-  sd.map (fun i => Ev.sub i true) ++
+    (the application's own subscriber transform, if any,) subscriber decorators in order, `enter` of the applicable
+    registrations in order, handler, `leave` reversed, publisher decorators in order and the publisher (if the handler
+    has one and returned a message). -/
+def specTrace (regs : List Reg) (pd sd : List Nat) (name : String) (hasPub : Bool) (app : Option Nat := none) : List Ev :=
+  (appSub app).1 ++ sd.map (fun i => Ev.sub i true) ++
   ((chainFor regs name).map Ev.enter ++ [Ev.handler] ++ (chainFor regs name).reverse.map Ev.leave) ++
   (if hasPub then pd.map Ev.pub ++ [Ev.published] else [])
 
 /-- the model's whole per-message trace is the specification -/
-theorem msg_trace_spec (regs : List Reg) (pd sd : List Nat) (name : String) (hasPub : Bool) :
-    msgTrace regs pd sd name hasPub = specTrace regs pd sd name hasPub := by
+theorem msg_trace_spec (regs : List Reg) (pd sd : List Nat) (name : String) (hasPub : Bool) (app : Option Nat) :
+    msgTrace regs pd sd name hasPub app = specTrace regs pd sd name hasPub app := by
   unfold msgTrace specTrace
-  rw [sub_decorators_in_order, chain_trace, pub_decorators_in_order]
+  rw [sub_decorators_in_order_from, chain_trace, pub_decorators_in_order]
 
-/-! ### registration programs: snapshot at start, handlers started later by RunHandlers -/
+/-! ### concurrent registration: whatever order the lock serialises overlapping `Handler.AddMiddleware` calls in -/
 
-def regsOf : List Op → List Reg
-  | [] => []
-  | .routerMw ids :: r => (ids.map fun i => ⟨i, "", true⟩) ++ regsOf r
-  | .handlerMw h ids :: r => (ids.map fun i => ⟨i, h, false⟩) ++ regsOf r
-  | _ :: r => regsOf r
+/-- **every registered middleware is in the chain exactly once, whatever the linearisation**: if `regs'` is any
+    reordering of the same registrations, handler `h` runs the same middlewares with the same multiplicities -/
+theorem chain_perm_invariant (regs regs' : List Reg) (h : String) (hp : regs'.Perm regs) :
+    (chainFor regs' h).Perm (chainFor regs h) := by
+  unfold chainFor
+  exact (hp.filter _).map _
 
-def pdOf : List Op → List Nat
-  | [] => []
-  | .pubDec ids :: r => ids ++ pdOf r
-  | _ :: r => pdOf r
+/-- **order within one goroutine is preserved**: the registrations `g` one caller made in sequence appear in the chain
+    in that order (as a subsequence), wherever the other callers' registrations landed in between -/
+theorem chain_sublist (g regs : List Reg) (h : String) (hs : g.Sublist regs) :
+    (chainFor g h).Sublist (chainFor regs h) := by
+  unfold chainFor
+  exact (hs.filter _).map _
 
-def sdOf : List Op → List Nat
-  | [] => []
-  | .subDec ids :: r => ids ++ sdOf r
-  | _ :: r => sdOf r
+example : (chainFor [⟨4, "a", false⟩, ⟨1, "a", false⟩, ⟨5, "b", false⟩, ⟨2, "a", false⟩] "a").Perm
+    (chainFor [⟨1, "a", false⟩, ⟨2, "a", false⟩, ⟨4, "a", false⟩, ⟨5, "b", false⟩] "a") := by decide
 
-theorem step_regs (s s' : St) (o : Op) (h : step s o = some s') :
-    s'.regs = s.regs ++ regsOf [o] ∧ s'.pd = s.pd ++ pdOf [o] ∧ s'.sd = s.sd ++ sdOf [o] := by
-  cases o <;> simp only [step] at h
-  case routerMw ids => cases h; simp [regsOf, pdOf, sdOf]
-  case handlerMw g ids =>
-    split at h
-    · cases h; simp [regsOf, pdOf, sdOf]
-    · cases h
-  case addHandler g p =>
-    split at h
-    · cases h
-    · cases h; simp [regsOf, pdOf, sdOf]
-  case pubDec ids => cases h; simp [regsOf, pdOf, sdOf]
-  case subDec ids => cases h; simp [regsOf, pdOf, sdOf]
-  case run => cases h; simp [regsOf, pdOf, sdOf]
+/-! ### registration programs: plugins loaded by Run, snapshot at start, handlers started later by RunHandlers -/
 
-theorem regsOf_cons (o : Op) (p : List Op) : regsOf (o :: p) = regsOf [o] ++ regsOf p := by
-  cases o <;> simp [regsOf]
-theorem pdOf_cons (o : Op) (p : List Op) : pdOf (o :: p) = pdOf [o] ++ pdOf p := by
-  cases o <;> simp [pdOf]
-theorem sdOf_cons (o : Op) (p : List Op) : sdOf (o :: p) = sdOf [o] ++ sdOf p := by
-  cases o <;> simp [sdOf]
+theorem R3.app_assoc (a b c : R3) : (a.app b).app c = a.app (b.app c) := by
+  simp [R3.app, List.append_assoc]
+theorem R3.app_nil (a : R3) : a.app {} = a := by simp [R3.app]
+theorem R3.nil_app (a : R3) : R3.app {} a = a := by simp [R3.app]
 
-/-- the registration lists after a program are the registrations of the program, in program order -/
+/-- what a program registers, in order – the registrations of a plugin count at the moment `Run` executes it:
+    `ran` = Run has already happened, `pl` = the plugins added so far -/
+def progR3 : Bool → List (List POp) → List Op → R3
+  | _, _, [] => {}
+  | ran, pl, .routerMw ids :: r => R3.app ⟨ids.map fun i => ⟨i, "", true⟩, [], []⟩ (progR3 ran pl r)
+  | ran, pl, .handlerMw h ids :: r => R3.app ⟨ids.map fun i => ⟨i, h, false⟩, [], []⟩ (progR3 ran pl r)
+  | ran, pl, .pubDec ids :: r => R3.app ⟨[], ids, []⟩ (progR3 ran pl r)
+  | ran, pl, .subDec ids :: r => R3.app ⟨[], [], ids⟩ (progR3 ran pl r)
+  | ran, pl, .addHandler _ _ _ :: r => progR3 ran pl r
+  | ran, pl, .plugin ps :: r => progR3 ran (pl ++ [ps]) r
+  | false, pl, .run :: r => (pluginR3 pl).app (progR3 true pl r)
+  | true, pl, .run :: r => progR3 true pl r
+
+theorem loadPlugins_r3 (s : St) :
+    (loadPlugins s).r3 = s.r3.app (if s.ran then {} else pluginR3 s.plugins) ∧
+    (loadPlugins s).ran = true ∧ (loadPlugins s).plugins = s.plugins ∧ (loadPlugins s).hs = s.hs ∧
+    (loadPlugins s).obs = s.obs := by
+  unfold loadPlugins
+  by_cases hr : s.ran = true
+  · simp [hr, R3.app_nil]
+  · simp [hr, St.r3, R3.app]
+
+/-- the registration lists after a program are what the program registers, in program order; plugins are executed by
+    the first `run` (= `Run`), before it starts any handler, and never again -/
 theorem exec_regs (s s' : St) (p : List Op) (h : exec s p = some s') :
-    s'.regs = s.regs ++ regsOf p ∧ s'.pd = s.pd ++ pdOf p ∧ s'.sd = s.sd ++ sdOf p := by
+    s'.r3 = s.r3.app (progR3 s.ran s.plugins p) := by
   induction p generalizing s with
-  | nil => simp [exec] at h; subst h; simp [regsOf, pdOf, sdOf]
+  | nil => simp [exec] at h; subst h; simp [progR3, R3.app_nil]
   | cons o rest ih =>
     simp only [exec] at h
     cases hs : step s o with
     | none => simp [hs] at h
     | some s2 =>
       simp only [hs] at h
-      have h1 := step_regs s s2 o hs
       have h2 := ih s2 h
-      rw [regsOf_cons, pdOf_cons, sdOf_cons, h2.1, h2.2.1, h2.2.2, h1.1, h1.2.1, h1.2.2]
-      simp [List.append_assoc]
+      rw [h2]
+      cases o <;> simp only [step] at hs
+      case routerMw ids => cases hs; simp [progR3, St.r3, R3.app, List.append_assoc]
+      case handlerMw g ids =>
+        split at hs
+        · cases hs; simp [progR3, St.r3, R3.app, List.append_assoc]
+        · cases hs
+      case addHandler g q a =>
+        split at hs
+        · cases hs
+        · cases hs; simp [progR3, St.r3]
+      case plugin ps => cases hs; simp [progR3, St.r3]
+      case pubDec ids => cases hs; simp [progR3, St.r3, R3.app, List.append_assoc]
+      case subDec ids => cases hs; simp [progR3, St.r3, R3.app, List.append_assoc]
+      case run =>
+        cases hs
+        have hl := loadPlugins_r3 s
+        show (loadPlugins s).r3.app (progR3 (loadPlugins s).ran (loadPlugins s).plugins rest) = _
+        rw [hl.1, hl.2.1, hl.2.2.1]
+        by_cases hr : s.ran = true
+        · simp [hr, progR3, R3.app_nil]
+        · have hr' : s.ran = false := by simpa using hr
+          simp [hr', progR3, R3.app_assoc]
 
 theorem step_keeps_started (s s' : St) (o : Op) (h : step s o = some s') (x : HSt) (hx : x ∈ s.hs)
     (t : List Ev) (ht : x.trace = some t) : x ∈ s'.hs := by
@@ -250,15 +286,17 @@ theorem step_keeps_started (s s' : St) (o : Op) (h : step s o = some s') (x : HS
     split at h
     · cases h; exact hx
     · cases h
-  case addHandler g p =>
+  case addHandler g p a =>
     split at h
     · cases h
     · cases h; exact List.mem_append_left _ hx
+  case plugin ps => cases h; exact hx
   case pubDec ids => cases h; exact hx
   case subDec ids => cases h; exact hx
   case run =>
     cases h
-    refine List.mem_map.mpr ⟨x, hx, ?_⟩
+    have hl := loadPlugins_r3 s
+    refine List.mem_map.mpr ⟨x, by rw [hl.2.2.2.1]; exact hx, ?_⟩
     simp [startH, ht]
 
 theorem step_obs (s s' : St) (o : Op) (h : step s o = some s') :
@@ -269,13 +307,14 @@ theorem step_obs (s s' : St) (o : Op) (h : step s o = some s') :
     split at h
     · cases h; simp
     · cases h
-  case addHandler g p =>
+  case addHandler g p a =>
     split at h
     · cases h
     · cases h; simp
+  case plugin ps => cases h; simp
   case pubDec ids => cases h; simp
   case subDec ids => cases h; simp
-  case run => cases h; simp
+  case run => cases h; simp [(loadPlugins_r3 s).2.2.2.2]
 
 theorem exec_obs_prefix (s s' : St) (p : List Op) (h : exec s p = some s') : ∃ ex, s'.obs = s.obs ++ ex := by
   induction p generalizing s with
@@ -324,45 +363,71 @@ theorem started_frozen (s s' : St) (p : List Op) (h : exec s p = some s') (x : H
       · rw [← ho.1 hr]; exact ih2.2
 
 /-- **program_chain_trace**: for every registration program `pre ++ run :: post` – any interleaving of router-level
-    and handler-level `AddMiddleware`, `AddHandler`, decorator registrations and earlier `run`s in `pre`, anything in
-    `post` – a handler that is added but not yet started when that `run` happens is started by it and from then on
-    every message does exactly: subscriber decorators of `pre` in order; `enter` of the router-level + own middlewares
-    of `pre` in registration order; the handler; `leave` in reverse; publisher decorators of `pre` in order.
+    and handler-level `AddMiddleware`, `AddHandler` (raw or application-decorated subscriber), `AddPlugin`, decorator
+    registrations and earlier `run`s in `pre`, anything in `post` – a handler that is added but not yet started when that
+    `run` happens is started by it and from then on every message does exactly: (the application's subscriber transform,)
+    subscriber decorators in order; `enter` of the router-level + own middlewares in registration order; the handler;
+    `leave` in reverse; publisher decorators in order – where the registrations are those of `pre` followed, when this
+    `run` is `Run` itself, by what the plugins register (plugins are executed BEFORE the handlers are started).
     Registrations in `post` do not reach it; the observation of that `run` and of every later one reports that trace. -/
 theorem program_chain_trace (pre post : List Op) (s1 s : St) (x : HSt)
     (h1 : exec {} pre = some s1) (hx : x ∈ s1.hs) (hns : x.trace = none)
     (h2 : exec s1 (.run :: post) = some s) :
-    let t := specTrace (regsOf pre) (pdOf pre) (sdOf pre) x.name x.hasPub
-    (⟨x.name, x.hasPub, some t⟩ : HSt) ∈ s.hs ∧ ∀ b ∈ s.obs.drop s1.obs.length, (x.name, t) ∈ b := by
-  intro t
+    let r := (progR3 false [] pre).app (if s1.ran then {} else pluginR3 s1.plugins)
+    let t := specTrace r.regs r.pd r.sd x.name x.hasPub x.app
+    (⟨x.name, x.hasPub, x.app, some t⟩ : HSt) ∈ s.hs ∧ ∀ b ∈ s.obs.drop s1.obs.length, (x.name, t) ∈ b := by
+  intro r t
   have hr := exec_regs {} s1 pre h1
+  have hl := loadPlugins_r3 s1
+  have hr3 : (loadPlugins s1).r3 = r := by
+    rw [hl.1, hr]; simp [r, St.r3, R3.nil_app]
   simp only [exec, step] at h2
-  have hmem : (⟨x.name, x.hasPub, some t⟩ : HSt) ∈ s1.hs.map (startH s1) := by
-    refine List.mem_map.mpr ⟨x, hx, ?_⟩
+  have hmem : (⟨x.name, x.hasPub, x.app, some t⟩ : HSt) ∈ (loadPlugins s1).hs.map (startH (loadPlugins s1)) := by
+    refine List.mem_map.mpr ⟨x, by rw [hl.2.2.2.1]; exact hx, ?_⟩
     simp only [startH, hns]
-    rw [msg_trace_spec, hr.1, hr.2.1, hr.2.2]
-    simp [t]
+    rw [msg_trace_spec]
+    have e : (loadPlugins s1).regs = r.regs ∧ (loadPlugins s1).pd = r.pd ∧ (loadPlugins s1).sd = r.sd := by
+      rw [← hr3]; exact ⟨rfl, rfl, rfl⟩
+    rw [e.1, e.2.1, e.2.2]
   have hfz := started_frozen _ s post h2 _ hmem t rfl
   refine ⟨hfz.1, ?_⟩
   intro b hb
   have hd : s.obs.drop s1.obs.length =
-      block (s1.hs.map (startH s1)) :: s.obs.drop (s1.obs.length + 1) := by
+      block ((loadPlugins s1).hs.map (startH (loadPlugins s1))) :: s.obs.drop (s1.obs.length + 1) := by
     rcases exec_obs_prefix _ s post h2 with ⟨ex, hex⟩
-    rw [hex]; simp
+    rw [hex]; simp [hl.2.2.2.2]
   rw [hd] at hb
   rcases List.mem_cons.mp hb with hb | hb
   · subst hb
     unfold block
     exact List.mem_filterMap.mpr ⟨_, hmem, by simp⟩
   · refine hfz.2 b ?_
-    simpa using hb
+    simpa [hl.2.2.2.2] using hb
+
+/-- **plugins act on every handler added before Run**: when `Run` happens (no earlier `run` in the program), whatever
+    the plugins added so far register is part of the registrations the handlers started by it get – appended, in plugin
+    order, after everything registered directly before `Run` -/
+theorem plugins_loaded_before_handlers_start (pre : List Op) (s1 : St) (h1 : exec {} pre = some s1) (hnr : s1.ran = false) :
+    (loadPlugins s1).r3 = (progR3 false [] pre).app (pluginR3 s1.plugins) := by
+  rw [(loadPlugins_r3 s1).1, exec_regs {} s1 pre h1]
+  simp [hnr, St.r3, R3.nil_app]
 
 /-- non-vacuity: router-level and handler-level registrations before `run`, a second handler added after it with
     registrations of its own, then `RunHandlers`; the first handler keeps its snapshot -/
-example : (exec {} [.routerMw [1], .addHandler "a" true, .handlerMw "a" [2], .pubDec [7], .run,
-                    .routerMw [3], .addHandler "b" false, .handlerMw "b" [4], .handlerMw "a" [5], .subDec [8], .run]).map (·.obs) =
+example : (exec {} [.routerMw [1], .addHandler "a" true none, .handlerMw "a" [2], .pubDec [7], .run,
+                    .routerMw [3], .addHandler "b" false none, .handlerMw "b" [4], .handlerMw "a" [5], .subDec [8], .run]).map (·.obs) =
     some [[("a", [.enter 1, .enter 2, .handler, .leave 2, .leave 1, .pub 7, .published])],
           [("a", [.enter 1, .enter 2, .handler, .leave 2, .leave 1, .pub 7, .published]),
            ("b", [.sub 8 true, .enter 1, .enter 3, .enter 4, .handler, .leave 4, .leave 3, .leave 1])]] := by decide
+
+/-- non-vacuity: a plugin registering a middleware, a publisher and a subscriber decorator; two handlers sharing the
+    application-decorated subscriber 4, both added before `Run`; a plugin added after `Run` never acts -/
+example : (exec {} [.plugin [.routerMw [9], .pubDec [7], .subDec [8]], .addHandler "a" true (some 4), .routerMw [1],
+                    .addHandler "b" false (some 4), .run, .plugin [.routerMw [5]], .addHandler "c" false none, .run]).map (·.obs) =
+    some [[("a", [.app 4, .sub 8 true, .enter 1, .enter 9, .handler, .leave 9, .leave 1, .pub 7, .published]),
+           ("b", [.app 4, .sub 8 true, .enter 1, .enter 9, .handler, .leave 9, .leave 1])],
+          [("a", [.app 4, .sub 8 true, .enter 1, .enter 9, .handler, .leave 9, .leave 1, .pub 7, .published]),
+           ("b", [.app 4, .sub 8 true, .enter 1, .enter 9, .handler, .leave 9, .leave 1]),
+           ("c", [.sub 8 true, .enter 1, .enter 9, .handler, .leave 9, .leave 1])]] := by decide
 
 end Wm.Chain
